@@ -634,6 +634,10 @@ func runLarge(c *core.Ctx, g *gen.G) {
 	}
 	var v ap.Item
 	var entryNames []string
+	if t.Bool(1, 4) {
+		runDeep(c, g)
+		return
+	}
 	switch t.Draw(4) {
 	case 3:
 		// a bare list (a top-level JSON array)
@@ -672,6 +676,44 @@ func runLarge(c *core.Ctx, g *gen.G) {
 	readAndExercise(c, e, msg, 0)
 	c.Rec.Nontriv = true
 	finish(c, e, fmt.Sprintf("large/%d/%s", n, what), nil)
+}
+
+// runDeep: a reply thread embedded through inReplyTo (or an activity chain
+// through object) 8 to 32 levels deep, as the library itself encodes it. The
+// recursion of the loaders is proportional to the nesting, which is fine;
+// work that doubles per level is not proportional to the input any more.
+func runDeep(c *core.Ctx, g *gen.G) {
+	t := c.Tape
+	depth := []int{8, 16, 24, 32}[t.Draw(4)]
+	var inner ap.Item = g.IRI()
+	viaObject := t.Bool(1, 3)
+	for i := 0; i < depth; i++ {
+		if viaObject {
+			inner = &ap.Activity{ID: g.IRI(), Type: ap.AnnounceType, Actor: g.IRI(), Object: inner}
+		} else {
+			inner = &ap.Object{ID: g.IRI(), Type: ap.NoteType, InReplyTo: inner, Content: ap.NaturalLanguageValues{{Ref: ap.NilLangRef, Value: ap.Content("reply")}}}
+		}
+	}
+	names := []string{"pkg.UnmarshalJSON", "Object.UnmarshalJSON", "pkg.GobDecode", "Object.GobDecode"}
+	if viaObject {
+		names = []string{"pkg.UnmarshalJSON", "Activity.UnmarshalJSON", "pkg.GobDecode", "Activity.GobDecode"}
+	}
+	e := byName[names[t.Draw(len(names))]]
+	if e == nil {
+		return
+	}
+	var msg []byte
+	if e.codec == "gob" {
+		msg, _ = ap.GobEncode(inner)
+		msg = gobcanon.Canon(msg)
+	} else {
+		msg, _ = ap.MarshalJSON(inner)
+	}
+	c.Probe("deep_nesting_decoded")
+	c.Logf("deep: %d levels through %v, %d bytes; reader: %s", depth, map[bool]string{true: "object", false: "inReplyTo"}[viaObject], len(msg), e.name)
+	readAndExercise(c, e, msg, 0)
+	c.Rec.Nontriv = true
+	finish(c, e, fmt.Sprintf("deep/%d/%v", depth, viaObject), nil)
 }
 
 func finish(c *core.Ctx, e *entry, what string, _ any) {
